@@ -17,7 +17,7 @@ use std::collections::BTreeMap;
 pub fn meta() -> Meta {
     Meta {
         level: "model_checking",
-        rule: "every well-formed history of at most L operations over {declare int x, declare const x, declare qubit x, use x, assign x, gate-call x, open if / else / while / for x / case / default / gate(x) / def(x), close} for x in a two-name pool (three pools: user names; pi and the library gate h; the built-in gate U), rendered as a program and analysed by the real front end; every symbol reference of the graph is compared with the reference scope stack; states = distinct reference scope stacks reached, transitions = distinct (state, operation) pairs, traces = histories executed; a history is non-trivial when some use resolves through at least two open scopes or to a shadowing declaration, or is a duplicate declaration",
+        rule: "every well-formed history of at most L operations over {declare int x, declare const x, declare qubit x, use x, assign x, gate-call x, open if / else / while / for x / case / default / gate(x) / def(x), close} for x in a two-name pool (four pools: user names; pi and the library gate h; the built-in gate U; non-ASCII names), rendered as a program and analysed by the real front end; every symbol reference of the graph is compared with the reference scope stack; states = distinct reference scope stacks reached, transitions = distinct (state, operation) pairs, traces = histories executed; a history is non-trivial when some use resolves through at least two open scopes or to a shadowing declaration, or is a duplicate declaration",
         assumptions: vec![
             "the generator never redeclares a for-loop variable directly in its own loop body and never uses a gate/subroutine name inside its own body (the statement does not fix these cases); gate/def parameters and body are one scope",
             "hook oq3_verif: scope depth accessor",
@@ -102,7 +102,7 @@ enum Frame {
 
 /// Expected event: one symbol reference of the graph, in graph order.
 #[derive(Clone, Debug)]
-struct Expect {
+pub struct Expect {
     name: String,
     /// byte range of the identifier token in the program text
     range: (usize, usize),
@@ -117,22 +117,22 @@ struct Expect {
 }
 
 #[derive(Clone, Debug, PartialEq)]
-enum Target {
+pub enum Target {
     Event(usize),
     Builtin,
 }
 
-pub const FAMILIES: [(&str, [&str; 2], bool); 3] = [("user", ["a", "b"], false), ("lib", ["pi", "h"], true), ("builtin", ["U", "a"], false)];
+pub const FAMILIES: [(&str, [&str; 2], bool); 4] = [("user", ["a", "b"], false), ("lib", ["pi", "h"], true), ("builtin", ["U", "a"], false), ("unicode", ["é", "变量"], false)];
 
-struct Rendered {
-    text: String,
+pub struct Rendered {
+    pub text: String,
     events: Vec<Expect>,
     states: Vec<u64>,
     nontrivial: bool,
 }
 
 /// Render the history and run the reference scope machine. Returns None if ill-formed.
-fn render(hist: &[Op], family: usize) -> Option<Rendered> {
+pub fn render(hist: &[Op], family: usize) -> Option<Rendered> {
     let (_, names, include) = FAMILIES[family];
     let mut text = String::new();
     // reference scope stack: name -> Target
@@ -666,12 +666,14 @@ pub fn spaces(tier: Tier, _seed: u64) -> Vec<Box<dyn Space>> {
             v.push(Box::new(ScopeHistories { family: 0, max_len: 5, nops: N_QUICK_OPS }));
             v.push(Box::new(ScopeHistories { family: 1, max_len: 4, nops: N_QUICK_OPS }));
             v.push(Box::new(ScopeHistories { family: 2, max_len: 4, nops: N_QUICK_OPS }));
+            v.push(Box::new(ScopeHistories { family: 3, max_len: 4, nops: N_QUICK_OPS }));
         }
         Tier::Thorough => {
             v.push(Box::new(ScopeHistories { family: 0, max_len: 6, nops: N_QUICK_OPS }));
             v.push(Box::new(ScopeHistories { family: 0, max_len: 5, nops: OPS.len() }));
             v.push(Box::new(ScopeHistories { family: 1, max_len: 5, nops: N_QUICK_OPS }));
             v.push(Box::new(ScopeHistories { family: 2, max_len: 5, nops: N_QUICK_OPS }));
+            v.push(Box::new(ScopeHistories { family: 3, max_len: 5, nops: N_QUICK_OPS }));
         }
     }
     v
